@@ -31,8 +31,11 @@ type chunkReader struct {
 
 func (r *chunkReader) Read(p []byte) (int, error) {
 	r.reads++
-	for len(r.chunks) > 0 && len(r.chunks[0]) == 0 {
+	if len(r.chunks) > 0 && len(r.chunks[0]) == 0 {
+		// an empty fragment is a Read that returns (0, nil): allowed by the io.Reader contract
+		// ("nothing happened"), e.g. a zero-length write on a net.Pipe
 		r.chunks = r.chunks[1:]
+		return 0, nil
 	}
 	if len(r.chunks) == 0 {
 		return 0, r.fin
@@ -42,6 +45,9 @@ func (r *chunkReader) Read(p []byte) (int, error) {
 	}
 	n := copy(p, r.chunks[0])
 	r.chunks[0] = r.chunks[0][n:]
+	if len(r.chunks[0]) == 0 {
+		r.chunks = r.chunks[1:]
+	}
 	r.consumed += n
 	return n, nil
 }
